@@ -11,7 +11,7 @@ ENGINES = [
     {"name": "E3-faults", "path": "mc/faults.py", "serves_properties": ["C09"],
      "kind_free_text": "fault injector over the file-mutating calls (to_csv, to_parquet, ParquetWriter, unlink, move, "
                        "open) + explicit-state BFS over canonical directory states"},
-    {"name": "E1-enum", "path": "mc/core.py", "serves_properties": ["C01", "C02", "C03", "C05", "C07", "C11", "C12", "C13", "C14", "C17", "C18", "C19", "C20"],
+    {"name": "E1-enum", "path": "mc/core.py", "serves_properties": ["C01", "C02", "C03", "C05", "C07", "C08", "C11", "C12", "C13", "C14", "C17", "C18", "C19", "C20"],
      "kind_free_text": "bounded exhaustive enumeration of inputs/configurations/operation sequences on the real code "
                        "with reference-model or differential oracle; 16 forked workers"},
 ]
@@ -215,6 +215,21 @@ CHECKS.update({
              "every explored iteration order of the sets used while grouping (0/1 deviations quick, 2 thorough).",
         note="A protein contained in two maximal proteins must be in at least one group; order of names inside a group "
              "string is free."),
+})
+
+CHECKS.update({
+    "C08": dict(
+        level="exploration", engine="E1-enum", design="DESIGN.md 4/C08",
+        technique="exhaustive enumeration of the grid seeds x folds x workers x estimator x FASTA mode x entry point; each "
+                  "case executed under every history variant (repeat after another analysis, other worker count, fresh "
+                  "interpreters for PYTHONHASHSEED 0..7, all k! orders of fed-back models) with a digest differential",
+        text="A complete analysis (brew -> read_fasta -> assign_confidence with proteins; also the CLI) is digested "
+             "(score bytes, fold membership via recording estimator or SVM coefficients, every result file byte for "
+             "byte, FASTA maps as sets) and the digest must be identical when the analysis is repeated in the same "
+             "process after other work, with another worker count, in fresh interpreters under each enumerated hash "
+             "seed, and the scores must be reproduced exactly when the returned models are fed back in any order.",
+        note="Hash seeds are enumerated over 0..7 (0..3 quick), not all 2^32; one 128-PSM dataset with anagram peptides "
+             "(so that random decoy matching has a choice)."),
 })
 
 NA = {
